@@ -49,7 +49,8 @@ def run_one(path, tier, check_props=None, scale=None):
         r = subprocess.run(["patch", "-p1", "-s", "-d", scratch, "-i", os.path.abspath(path)], capture_output=True, text=True)
         if r.returncode != 0:
             return key_of(path), {"property": prop, "outcome": "patch_failed", "detail": (r.stdout + r.stderr)[-500:]}
-        env = dict(os.environ, IRISPIE_SRC=os.path.join(scratch, "src"), VERIF_NO_SHRINK="1")
+        env = dict(os.environ, IRISPIE_SRC=os.path.join(scratch, "src"), VERIF_NO_SHRINK="1",
+                   VERIF_OUT_DIR=os.path.join(scratch, "out"))
         outcomes = {}
         for p in props:
             cmd = [sys.executable, os.path.join(HERE, "run_check.py"), p, "--tier", tier, "--no-evidence"]
